@@ -30,7 +30,7 @@ import (
 
 var vSessRoutes = []string{"r1", "r2", "r3", "r4"}
 var vSessPrefixes = map[string]string{"r1": "10.20.0.1/32", "r2": "10.20.0.2/32", "r3": "10.20.1.0/24", "r4": "10.20.2.128/25"}
-var vSessAttrNames = []string{"a1", "a2", "a3"}
+var vSessAttrNames = []string{"a1", "a2", "a3", "a4"}
 
 type vSessAttr struct {
 	lp    uint32
@@ -38,13 +38,14 @@ type vSessAttr struct {
 }
 
 // attribute values: on an iBGP session LOCAL_PREF is on the wire, on an eBGP session only the
-// communities are, so the three values differ in something the peer can see in both cases
+// communities are, so the four values differ in something the peer can see in both cases
 func vSessAttrs(ibgp bool) map[string]vSessAttr {
 	if ibgp {
-		return map[string]vSessAttr{"a1": {100, nil}, "a2": {200, nil}, "a3": {100, []uint32{65000<<16 | 7}}}
+		return map[string]vSessAttr{"a1": {100, nil}, "a2": {200, nil}, "a3": {100, []uint32{65000<<16 | 7}},
+			"a4": {100, []uint32{65000<<16 | 9}}}
 	}
 	return map[string]vSessAttr{"a1": {100, nil}, "a2": {100, []uint32{65000<<16 | 7}},
-		"a3": {100, []uint32{65000<<16 | 7, 65000<<16 | 9}}}
+		"a3": {100, []uint32{65000<<16 | 9}}, "a4": {100, []uint32{65000<<16 | 7, 65000<<16 | 9}}}
 }
 
 func vSessAttrKey(ibgp bool, lp int64, comms []uint32) string {
@@ -175,6 +176,7 @@ type vSessLog struct {
 	anyRecv   map[int]int // all messages read per connection
 	lastEvent time.Time   // harness-internal pacing only (never logged, never judged)
 	changed   chan struct{} // closed and replaced whenever a line is added (see sess_ctl_test.go)
+	sealed    bool          // the "end" line is written: whatever a surviving goroutine does later is not part of the run
 	armNext   int           // >0: the next accepted connection is dropped after this many UPDATEs
 	armRst    bool
 }
@@ -185,6 +187,12 @@ func vSessNewLog(w string) *vSessLog {
 
 // add appends one line; the caller holds l.mu.
 func (l *vSessLog) addLocked(kind string, f map[string]interface{}) {
+	if l.sealed {
+		return
+	}
+	if kind == "end" {
+		l.sealed = true
+	}
 	if f == nil {
 		f = map[string]interface{}{}
 	}
